@@ -173,6 +173,25 @@ def renderer(run, m, F, E):
                                                  (e[2], e[4], e[3].off, e[5], e[1].line, '; witness ' + own.fmt_env(env) if env else ''), 'oob'))
                             else:
                                 und.append('bounds at line %d not decided' % e[1].line)
+                    if o.kind == 'throw' and not [e for e in s2.events if e[0] == 'snprintf-fail']:
+                        # "however long that rendering is": the renderer may give up (an exception) only where the C library did
+                        # - on a path on which snprintf reported failure.  A throw on any other path is a refusal to render
+                        # something printf renders; a finding with a model of the inputs of the path (precision, width, the digit
+                        # count of the precision), allocation failure apart
+                        exc = str(o.val if o.val is not None else (o.info or ''))
+                        if 'bad_alloc' in exc or 'bad_array_new_length' in exc:
+                            continue
+                        env = s2.find_model([Lin.atom('prec'), Lin.atom('minlen')] + ([Lin.atom('ndig')] if 'ndig' in s2.rng else []), lambda v: True)
+                        if env is not None and 'ndig' in env and has_prec:
+                            # (the digit count of the precision is a symbol of its own in this model: name a precision that has it)
+                            env = dict(env)
+                            env['prec'] = 10 ** (env['ndig'] - 1)
+                        if env is not None:
+                            problems.append(('R13.2', 'throws %s on a path on which snprintf has not failed: a field printf renders is refused; witness %s' %
+                                             (exc[:60] or 'an exception', own.fmt_env(env)), 'throw'))
+                        else:
+                            und.append('a throwing path without a snprintf failure, not confirmed by a model')
+                        continue
                     if o.kind != 'ret':
                         continue
                     if not sn:
